@@ -27,7 +27,7 @@ CLAIMS = {
     "C03": dict(
         module="c03_labels", design="DESIGN.md §4 C03",
         technique="deterministic simulation: seeded operation histories against an entity-tracking reference model, twin-form comparison, ddmin replay",
-        text="Random histories of structural operations (all labelled axes, specific/generic and mutating/non-mutating forms, many argument forms) on 13 labelled matrix classes plus the genotyping protocols, executed against an entity-tracking list model; labels, data cells, operand immutability, form equivalence and group-metadata truth are checked after every step.",
+        text="Random histories of structural operations (all labelled axes, specific/generic and mutating/non-mutating forms, many argument forms) on 25 labelled matrix classes plus the three genotyping protocols, executed against an entity-tracking list model; labels, data cells, operand immutability, form equivalence and group-metadata truth are checked after every step.",
         note="Operations rejected in every form are recorded, not flagged, provided receiver and operands are unchanged; dims <= 6, <= 12 ops per history."),
     "C06": dict(
         module="c06_optim", design="DESIGN.md §4 C06",
